@@ -152,9 +152,16 @@ func (e External) RunJob(ch *choice.Source, opt Options, params map[string]strin
 	} else if werr == nil {
 		code = 0
 	}
+	var sample any
+	if sb, err := os.ReadFile(job.Out + ".sample"); err == nil {
+		_ = json.Unmarshal(sb, &sample)
+	}
 	if e.Classify != nil {
 		r := e.Classify(phase, code, out.String())
 		if r.Rule != "" || r.Inconclusive != "" || r.HarnessBug != "" {
+			if r.Sample == nil {
+				r.Sample = sample
+			}
 			return r
 		}
 	}
